@@ -8,8 +8,13 @@ package histsim
 import (
 	"bytes"
 	"crypto/sha256"
+	"encoding/json"
 	"fmt"
+	"io"
+	"os"
+	"os/exec"
 	"sort"
+	"strings"
 	"sync"
 	"testing"
 
@@ -116,6 +121,8 @@ func setup() {
 			{"multisig-valid", b58(5, 25, true)},
 			{"eth-lower", ethLower},
 			{"eth-checksum", "0x8617E340B3D01FA5F11F306F4090FD50E238070D"},
+			{"exec-driver-address", dapp.ExecAddress("histsimexec")},
+			{"exec-address-unregistered", address.ExecAddress("nosuchexec")},
 			{"btc-bad-checksum", b58(0, 25, false)},
 			{"multisig-bad-checksum", b58(5, 25, false)},
 			{"btc-long-bad-checksum", b58(0, 30, false)},
@@ -126,8 +133,6 @@ func setup() {
 			{"hex-39-digits", ethLower[:41]},
 			{"hex-no-prefix", ethLower[2:]},
 			{"empty", ""},
-			{"exec-driver-address", dapp.ExecAddress("histsimexec")},
-			{"exec-address-unregistered", address.ExecAddress("nosuchexec")},
 		}
 		mk := func(name, cr string, key byte, signTy int32, mangle bool) {
 			h := sha256.Sum256([]byte{key, 't', 'x'})
@@ -170,14 +175,14 @@ func errID(err error) string {
 // configuration knobs
 
 type config struct {
-	hMS, hETH          int64 // address driver enable heights (btc is the default driver: 0)
+	hMS, hETH, hUTXO   int64 // address driver enable heights (btc is the default driver: 0)
 	fMS, fB58, fFMT    int64 // ForkMultiSignAddress, ForkBase58AddressCheck, ForkFormatAddressKey
 	cED, cSM2, cETHSig int64 // crypto enable heights
 	defEth             bool
 }
 
 func cfgOf(sc *simrt.Scenario) config {
-	c := config{hMS: sc.Knob("h_ms", 0), hETH: sc.Knob("h_eth", 0), fMS: sc.Knob("f_ms", 0), fB58: sc.Knob("f_b58", 0), fFMT: sc.Knob("f_fmt", 0),
+	c := config{hMS: sc.Knob("h_ms", 0), hETH: sc.Knob("h_eth", 0), hUTXO: sc.Knob("h_utxo", 0), fMS: sc.Knob("f_ms", 0), fB58: sc.Knob("f_b58", 0), fFMT: sc.Knob("f_fmt", 0),
 		cED: sc.Knob("c_ed", 0), cSM2: sc.Knob("c_sm2", 0), cETHSig: sc.Knob("c_ethsig", 0), defEth: sc.Knob("def_eth", 0) == 1}
 	if c.hETH != 0 {
 		c.defEth = false // a default driver must be enabled from height 0
@@ -187,7 +192,7 @@ func cfgOf(sc *simrt.Scenario) config {
 
 func (c config) heights() []int64 {
 	set := map[int64]bool{-1: true, 0: true, 1: true, 1000: true, execDriverHeight - 1: true, execDriverHeight: true}
-	for _, h := range []int64{c.hMS, c.hETH, c.fMS, c.fB58, c.fFMT, c.cED, c.cSM2, c.cETHSig} {
+	for _, h := range []int64{c.hMS, c.hETH, c.hUTXO, c.fMS, c.fB58, c.fFMT, c.cED, c.cSM2, c.cETHSig} {
 		if h > 0 {
 			set[h-1], set[h], set[h+1] = true, true, true
 		}
@@ -205,7 +210,7 @@ func apply(c config) {
 	if c.defEth {
 		def = "eth"
 	}
-	address.Init(&address.Config{DefaultDriver: def, EnableHeight: map[string]int64{"btc": 0, "btcMultiSign": c.hMS, "eth": c.hETH}})
+	address.Init(&address.Config{DefaultDriver: def, EnableHeight: map[string]int64{"btc": 0, "btcMultiSign": c.hMS, "eth": c.hETH, "utxo": c.hUTXO}})
 	crypto.Init(&crypto.Config{
 		EnableTypes:  []string{"secp256k1", "ed25519", "sm2", "secp256k1eth", "secp256r1", "btcscript"},
 		EnableHeight: map[string]int64{"secp256k1": 0, "ed25519": c.cED, "sm2": c.cSM2, "secp256k1eth": c.cETHSig, "secp256r1": 0, "btcscript": 0},
@@ -236,7 +241,12 @@ const (
 	famCrypto               // crypto.Load / CheckSign
 )
 
-var nValid = 4 // the first nValid entries of addrs are valid for exactly one driver
+const c19RegionDen = 3
+
+// one scenario in c19FreshDen is also executed in two fresh processes
+const c19FreshDen = 8
+
+var nValid = 6 // the first nValid entries of addrs are valid for exactly one driver
 
 func (c19) Generate(prop string, r *simrt.RNG, tier string, run int) *simrt.Scenario {
 	sc := &simrt.Scenario{Knobs: map[string]int64{}}
@@ -245,25 +255,34 @@ func (c19) Generate(prop string, r *simrt.RNG, tier string, run int) *simrt.Scen
 			sc.Knobs[name] = v
 		}
 	}
-	// baseline (all zero) in one scenario out of five
-	if !r.Chance(1, 5) {
-		pick("h_ms", 0, 50, 50, -1)
-		pick("h_eth", 0, 120, 120, -1)
+	// Three regions of the space were findings of their own before the fixes
+	// "address.CheckAddress no longer depends on map order or on earlier heights"
+	// and "eth address driver caches the unformatted address": non-zero ADDRESS
+	// driver enable heights, inputs that no enabled driver accepts, and a non-zero
+	// ForkFormatAddressKey. Each is entered by one scenario in c19RegionDen.
+	if r.Chance(1, c19RegionDen) {
+		for sc.Knobs["h_ms"] == 0 && sc.Knobs["h_eth"] == 0 && sc.Knobs["h_utxo"] == 0 {
+			pick("h_ms", 0, 50, -1)
+			pick("h_eth", 0, 120, -1)
+			pick("h_utxo", 0, 0, 70, -1, -1)
+		}
+	}
+	if r.Chance(1, c19RegionDen) {
+		sc.Knobs["f_fmt"] = 200
+	}
+	allowInvalid := r.Chance(1, c19RegionDen)
+	if !r.Chance(1, 6) { // one scenario in six keeps every other height at zero
 		pick("f_ms", 0, 80, 80)
 		pick("f_b58", 0, 160, 160)
-		pick("f_fmt", 0, 200, 200)
 		pick("c_ed", 0, 90, 90, -1)
 		pick("c_sm2", 0, 140)
 		pick("c_ethsig", 0, 110)
-		pick("def_eth", 0, 0, 1)
 	}
+	pick("def_eth", 0, 0, 1)
 	fam := 0
 	for fam == 0 {
 		if r.Chance(1, 2) {
 			fam |= famValidity
-			if r.Chance(1, 2) {
-				fam |= famInvalid
-			}
 		}
 		if r.Chance(1, 2) {
 			fam |= famPubkey
@@ -272,12 +291,20 @@ func (c19) Generate(prop string, r *simrt.RNG, tier string, run int) *simrt.Scen
 			fam |= famCrypto
 		}
 	}
+	if allowInvalid {
+		fam |= famValidity | famInvalid
+	}
 	sc.Knobs["fam"] = int64(fam)
+	// fresh: additionally replay the history, forwards and backwards, in two
+	// literally fresh OS processes and compare the answers query by query
+	if r.Chance(1, c19FreshDen) {
+		sc.Knobs["fresh"] = 1
+	}
 	hs := cfgOf(sc).heights()
 	h := func() int64 { return hs[r.Intn(len(hs))] }
 	var kinds []string
 	if fam&famValidity != 0 {
-		kinds = append(kinds, "chk", "chk", "chk", "dchk", "dchk", "atyp", "ldrv")
+		kinds = append(kinds, "chk", "chk", "chk", "dchk", "dchk", "atyp", "ldrv", "isdrv")
 	}
 	if fam&famPubkey != 0 {
 		kinds = append(kinds, "pk2a", "pk2a", "from", "exad", "gexa", "fmtk")
@@ -304,7 +331,7 @@ func (c19) Generate(prop string, r *simrt.RNG, tier string, run int) *simrt.Scen
 			k := kinds[r.Intn(len(kinds))]
 			var idx int
 			switch k {
-			case "chk", "dchk", "atyp", "fmtk":
+			case "chk", "dchk", "atyp", "fmtk", "isdrv":
 				idx = r.Intn(naddr)
 			case "pk2a":
 				idx = r.Intn(3)*3 + r.Intn(3) // pubkey x address id
@@ -332,6 +359,19 @@ func (c19) Generate(prop string, r *simrt.RNG, tier string, run int) *simrt.Scen
 // printable string that identifies error VALUES (not only their text). site names
 // the function and the input category (stable, used in signatures).
 func ask(op *simrt.Op) (answer, site string) {
+	defer func() {
+		// a panic is an answer too (and must be as history-independent as any other)
+		if p := recover(); p != nil {
+			answer = fmt.Sprintf("panic: %v", p)
+			if site == "" {
+				site = "query/" + op.K
+			}
+		}
+	}()
+	return ask1(op)
+}
+
+func ask1(op *simrt.Op) (answer, site string) {
 	idx, h := int(op.Int(0)), op.Int(1)
 	if idx < 0 {
 		idx = -idx
@@ -343,6 +383,9 @@ func ask(op *simrt.Op) (answer, site string) {
 	case "dchk":
 		a := addrs[idx%len(addrs)]
 		return errID(dapp.CheckAddress(cfg, a.addr, h)), "dapp.CheckAddress/" + a.name
+	case "isdrv":
+		a := addrs[idx%len(addrs)]
+		return fmt.Sprint(dapp.IsDriverAddress(a.addr, h)), "dapp.IsDriverAddress/" + a.name
 	case "atyp":
 		a := addrs[idx%len(addrs)]
 		ty, err := address.GetAddressType(a.addr)
@@ -403,7 +446,7 @@ func (c19) Execute(t *testing.T, ctx *simrt.Ctx) *simrt.Violation {
 	c := cfgOf(sc)
 	apply(c)
 	defer func() { apply(config{}); pristine() }()
-	for _, h := range []int64{c.hMS, c.hETH, c.fMS, c.fB58, c.fFMT, c.cED, c.cSM2, c.cETHSig} {
+	for _, h := range []int64{c.hMS, c.hETH, c.hUTXO, c.fMS, c.fB58, c.fFMT, c.cED, c.cSM2, c.cETHSig} {
 		if h != 0 {
 			ctx.Probe("nonzero_config_height")
 			break
@@ -482,10 +525,87 @@ func (c19) Execute(t *testing.T, ctx *simrt.Ctx) *simrt.Violation {
 		fmt.Fprintf(&hist, "%s/%d@%d=%s;", op.K, op.Int(0), op.Int(1), got)
 	}
 	ctx.State(simrt.DigestOf(hist.String()))
+	// phase 3: two literally fresh processes answer the history forwards and
+	// backwards without any cache reset. Whatever a process remembers — including
+	// state no reset hook knows about — then shows as a difference between the
+	// two orders. (Only the two fresh processes are compared with each other:
+	// this worker process has a history of thousands of earlier runs.)
+	if sc.Knob("fresh", 0) == 1 && os.Getenv("VERIF_HISTSIM_CHILD") == "" {
+		fwd := freshAnswers(sc, false)
+		rev := freshAnswers(sc, true)
+		ctx.Probe("fresh_process_pairs")
+		for i := range sc.Ops {
+			ctx.CurOp = i
+			if fwd[i] != rev[i] {
+				_, site := ask(&sc.Ops[i])
+				return ctx.Violate("history-dependent", site+"/fresh-process", "%s at height %d under %s: a fresh process answering the history in order says %q, a fresh process answering it in reverse order says %q (in-process pristine answer: %q)", site, sc.Ops[i].Int(1), c, fwd[i], rev[i], want[i])
+			}
+		}
+	}
 	return nil
 }
 
+// ChildMain is the body of a one-shot fresh process (TestHistsimChild): read one
+// scenario, answer its queries in the requested order, print the answers.
+func ChildMain(in io.Reader, out io.Writer) {
+	var req struct {
+		Sc      *simrt.Scenario `json:"sc"`
+		Reverse bool            `json:"reverse"`
+	}
+	data, err := io.ReadAll(in)
+	simrt.Must(err, "read request")
+	simrt.Must(json.Unmarshal(data, &req), "decode request")
+	setup()
+	apply(cfgOf(req.Sc))
+	n := len(req.Sc.Ops)
+	ans := make([]string, n)
+	for k := 0; k < n; k++ {
+		i := k
+		if req.Reverse {
+			i = n - 1 - k
+		}
+		ans[i], _ = ask(&req.Sc.Ops[i])
+	}
+	b, _ := json.Marshal(ans)
+	out.Write(append(b, '\n'))
+}
+
+func freshAnswers(sc *simrt.Scenario, reverse bool) []string {
+	self, err := os.Executable()
+	simrt.Must(err, "os.Executable")
+	cmd := exec.Command(self, "-test.run", "^TestHistsimChild$", "-test.timeout", "0", "-test.count", "1")
+	env := []string{}
+	for _, kv := range os.Environ() {
+		if strings.HasPrefix(kv, "VERIF_") {
+			continue
+		}
+		env = append(env, kv)
+	}
+	cmd.Env = append(env, "VERIF_HISTSIM_CHILD=1")
+	req, _ := json.Marshal(map[string]interface{}{"sc": sc, "reverse": reverse})
+	cmd.Stdin = bytes.NewReader(req)
+	pr, pw, err := os.Pipe()
+	simrt.Must(err, "pipe")
+	cmd.ExtraFiles = []*os.File{pw}
+	var errb bytes.Buffer
+	cmd.Stdout, cmd.Stderr = &errb, &errb
+	simrt.Must(cmd.Start(), "start fresh process")
+	pw.Close()
+	data, _ := io.ReadAll(pr)
+	werr := cmd.Wait()
+	pr.Close()
+	var ans []string
+	if json.Unmarshal(bytes.TrimSpace(data), &ans) != nil || len(ans) != len(sc.Ops) {
+		s := errb.String()
+		if len(s) > 2000 {
+			s = s[len(s)-2000:]
+		}
+		simrt.Failf("C19 fresh process gave no answers (%v): %s", werr, s)
+	}
+	return ans
+}
+
 func (c config) String() string {
-	return fmt.Sprintf("config{addr enable: btcMultiSign=%d eth=%d default-eth=%v; forks: MultiSignAddress=%d Base58AddressCheck=%d FormatAddressKey=%d; crypto enable: ed25519=%d sm2=%d secp256k1eth=%d; exec driver height=%d}",
-		c.hMS, c.hETH, c.defEth, c.fMS, c.fB58, c.fFMT, c.cED, c.cSM2, c.cETHSig, execDriverHeight)
+	return fmt.Sprintf("config{addr enable: btcMultiSign=%d eth=%d utxo=%d default-eth=%v; forks: MultiSignAddress=%d Base58AddressCheck=%d FormatAddressKey=%d; crypto enable: ed25519=%d sm2=%d secp256k1eth=%d; exec driver height=%d}",
+		c.hMS, c.hETH, c.hUTXO, c.defEth, c.fMS, c.fB58, c.fFMT, c.cED, c.cSM2, c.cETHSig, execDriverHeight)
 }
